@@ -47,7 +47,15 @@ func runSolver(sp solverSpec, file string, timeoutS int) solveResult {
 	_ = cmd.Run()
 	secs := time.Since(t0).Seconds()
 	raw := out.String()
-	first := strings.TrimSpace(strings.SplitN(raw, "\n", 2)[0])
+	first := ""
+	for _, ln := range strings.Split(raw, "\n") {
+		ln = strings.TrimSpace(ln)
+		if ln == "" || strings.HasPrefix(ln, "WARNING") || strings.HasPrefix(ln, "(warning") {
+			continue
+		}
+		first = ln
+		break
+	}
 	ans := "error"
 	if strings.Contains(raw, "(error") {
 		return solveResult{"error", sp.name, secs, raw}
@@ -171,6 +179,9 @@ func (s *Solver) model(c *Ctx, o *Obligation, sp solverSpec) {
 // parseModel extracts (name value) pairs from a get-value answer.
 func parseModel(raw string, inputs []InputLeaf) map[string]string {
 	m := map[string]string{}
+	if i := strings.Index(raw, "\nsat"); i >= 0 {
+		raw = raw[i:]
+	}
 	idx := strings.Index(raw, "((")
 	if idx < 0 {
 		return m
